@@ -43,13 +43,13 @@ def run(ctx):
     # all histories connect, X, Y, connect (every pair of changes between two connections), exhaustively by BFS
     directed = []
     with open(os.path.join(d, "res_dir.cfg"), "w") as f:
-        f.write('SPECIFICATION Spec\nCONSTANTS\n ShapeName = "free"\n Cap = 1\n MaxOps = 4\n Suites = {"CBC", "GCM"}\n Names = {"a"}\n Versions = {11, 12}\nCONSTRAINT Emit\n')
+        f.write('SPECIFICATION Spec\nCONSTANTS\n ShapeName = "c_xx_c"\n Cap = 1\n MaxOps = 4\n Suites = {"CBC", "GCM"}\n Names = {"a"}\n Versions = {11, 12}\nCONSTRAINT Emit\n')
     r = ctx.tlc("TLCPResume", "res_dir.cfg", workers=1, timeout=1500, count=False)
     for b in markers(r["out"], "BEH"):
         if b[0]["op"] == "connect" and b[-1]["op"] == "connect":
             directed.append((1, b))
     with open(os.path.join(d, "res_dir.cfg"), "w") as f:
-        f.write('SPECIFICATION Spec\nCONSTANTS\n ShapeName = "free"\n Cap = 1\n MaxOps = 3\n Suites = {"CBC", "GCM"}\n Names = {"a"}\n Versions = {11, 12}\nCONSTRAINT Emit\n')
+        f.write('SPECIFICATION Spec\nCONSTANTS\n ShapeName = "c_x_c"\n Cap = 1\n MaxOps = 3\n Suites = {"CBC", "GCM"}\n Names = {"a"}\n Versions = {11, 12}\nCONSTRAINT Emit\n')
     r = ctx.tlc("TLCPResume", "res_dir.cfg", workers=1, timeout=1500, count=False)
     for b in markers(r["out"], "BEH"):
         if b[0]["op"] == "connect" and b[-1]["op"] == "connect":
